@@ -5,6 +5,7 @@ cd "$(dirname "$0")" || exit 1
 export PYTHONDONTWRITEBYTECODE=1
 /venv/bin/python -m harness.extract || exit 1
 cd lean || exit 1
-mods=$(ls Pypika/Props/*.lean | sed 's/\.lean$//; s#/#.#g' | tr '\n' ' ')
+# every module of the project: property files and whole-tree proofs are not imported by the library root
+mods=$(find Pypika -name '*.lean' | sed 's/\.lean$//; s#/#.#g' | tr '\n' ' ')
 lake build Pypika driver $mods 2>&1 | tail -5
 test -x .lake/build/bin/driver
